@@ -338,8 +338,7 @@ func (v *Value) Contains(other *Value) bool {
 	baseValue := v.getResolvedValue()
 	switch baseValue.Kind() {
 	case reflect.Struct:
-		fieldValue := baseValue.FieldByName(other.String())
-		return fieldValue.IsValid()
+		return structField(baseValue, other.String()).IsValid()
 	case reflect.Map:
 		// We can't check against invalid types
 		if !other.val.IsValid() {
